@@ -128,7 +128,7 @@ class ConstantExpressionEvaluator:
 
         # Ensure division is integer division:
         if expr.typ.is_integer:
-            op_map["/"] = lambda x, y: x // y
+            op_map["/"] = self.int_div
             op_map[">>"] = lambda x, y: x >> y
             op_map["<<"] = lambda x, y: x << y
             op_map["|"] = lambda x, y: x | y
@@ -139,3 +139,11 @@ class ConstantExpressionEvaluator:
 
         value = op_map[op](lhs, rhs)
         return value
+
+    @staticmethod
+    def int_div(x, y):
+        """Integer division, truncates towards zero (C99 6.5.5)."""
+        quotient = abs(x) // abs(y)
+        if (x < 0) != (y < 0):
+            quotient = -quotient
+        return quotient
